@@ -1015,7 +1015,9 @@ def slice_with_int_dask_array_on_axis(x, idx, axis):
     # e.g. chunks=(..., (5, 3, 4), ...) -> offset=[0, 5, 8]
     offset = np.roll(np.cumsum(asarray_safe(x.chunks[axis], like=x._meta)), 1)
     offset[0] = 0
-    offset = from_array(offset, chunks=1)
+    # Use a dedicated name: a user index array holding the same values would
+    # otherwise share its (content based) name with this array
+    offset = from_array(offset, chunks=1, name="slice-offset-" + tokenize(offset))
     # Tamper with the declared chunks of offset to make blockwise align it with
     # x[axis]
     offset = Array(
